@@ -97,7 +97,10 @@ class DerivationProcessor:
                     shifted_indices = DerivationProcessor.shift_window(valid_indices,
                                                                        level.window,
                                                                        block.variables_per_trial(),
-                                                                       block.sustain_count(factor))
+                                                                       block.sustain_count(factor),
+                                                                       lambda idx: (len(block.decode_variable(idx + 1)[0].levels)
+                                                                                    if idx >= block.grid_variables()
+                                                                                    else None))
                     level_index = block.first_variable_for_level(factor, level)
                     accum.append(Derivation(level_index, shifted_indices, factor))
             # check that everything in the cross product is covered by some level
@@ -126,7 +129,8 @@ class DerivationProcessor:
     def shift_window(indices: List[List[object]],
                      window: Window,
                      trial_size: int,
-                     sustain_count: int
+                     sustain_count: int,
+                     complex_level_count=lambda idx: None
                      ) -> List[List[object]]:
         """This is a helper function that shifts the indices of
         :func:`.DerivationProcessor.generate_derivations`.
@@ -166,7 +170,12 @@ class DerivationProcessor:
                     if isinstance(idx, BeforeStart):
                         l.append(BeforeStart(idx.ready_at+(len(idx_list) - i - 1)))
                     else:
-                        l.append(cast(int, idx) + i * sustain_count * trial_size)
+                        # variables of a complex-window factor are laid out per factor, not per trial
+                        count = complex_level_count(cast(int, idx))
+                        if count is not None:
+                            l.append(cast(int, idx) + i * count)
+                        else:
+                            l.append(cast(int, idx) + i * sustain_count * trial_size)
                 shifted_sublists.append(l)
             shifted_idxs.append(list(reduce(op.add, shifted_sublists, [])))
 
